@@ -618,3 +618,37 @@ def replay_thinning(obligation=None, model=None, meta=None):
 
 
 replay_thinning.real_system = True
+
+
+def replay_dae_store(obligation=None, model=None, meta=None):
+    """native run of the real DAE.store on a stub: the solver vectors are updated IN PLACE between two calls; every stored row must
+    keep the values the vectors held when it was stored -- without a selection, with a scattered selection and with selections
+    that are one contiguous block (whole model / whole variable) or a single address"""
+    import numpy as np
+    from andes.variables.dae import DAE
+    from contracts.packutil import Stub
+    n = 0
+    for xidx, yidx in ((None, None), ([0, 2, 5], [1, 4]), ([1, 2, 3], [0, 1, 2, 3]), ([4], [2]), ([0, 1, 2, 3, 4, 5], [3, 4, 5]), ([], [2, 3])):
+        x, y = np.arange(6, dtype=float) + 0.5, np.arange(6, dtype=float) * 10.0
+        ts = Stub(_xs={}, _ys={}, _zs={}, _fs={}, _hs={}, _is={})
+        t = np.array(0.0)
+        sel = xidx is not None
+        stub = Stub(DAE, x=x, y=y, t=t, ts=ts, f=np.zeros(6), h=np.zeros(0), i=np.zeros(0),
+                    system=Stub(Output=Stub(n=1 if sel else 0, xidx=list(xidx or []), yidx=list(yidx or [])), exist=Stub(pflow_tds={}),
+                                TDS=Stub(config=Stub(store_z=0, store_f=0, store_h=0, store_i=0))))
+        want = {}
+        for k in range(3):
+            t[...] = 0.1 * k
+            x += 1.0            # in place, as the integrator does
+            y *= 1.5
+            want[float(t)] = (np.array(x[xidx] if sel else x), np.array(y[yidx] if sel else y))
+            n += 1
+            DAE.store(stub)
+        for tk, (wx, wy) in want.items():
+            gx, gy = np.asarray(ts._xs.get(tk)), np.asarray(ts._ys.get(tk))
+            if ts._xs.get(tk) is None or gx.shape != wx.shape or gy.shape != wy.shape or not (np.array_equal(gx, wx) and np.array_equal(gy, wy)):
+                return {'confirmed': True, 'inputs': {'Output.xidx': xidx, 'Output.yidx': yidx, 'stored at t': tk, 'steps': 3},
+                        'observed': 'row stored at t = %r reads x %r, y %r after later steps; the vectors held x %r, y %r when it was stored' % (
+                            tk, gx.tolist(), gy.tolist(), wx.tolist(), wy.tolist()),
+                        'native_cmd': 'DAE.store(stub) three times with dae.x / dae.y updated in place in between'}
+    return {'confirmed': False, 'tried': n}
